@@ -16,17 +16,17 @@ props = {
          "Sequential path: proved. Concurrent path: function-local contracts proved; 'for every schedule' rests on lemma L3 (L3step/L3final are SMT-checked implications over the task's frame and postcondition clauses) and on L2barrier + T2; that the lemma hypotheses faithfully abstract the clauses they cite, and the axioms T2-T4, are argued.", "6/C06, 4/L3"),
  "C07": ("Every item exactly once: ghost per-index call counters; continue mode without cancellation => every counter is 1 at Post (sequential: loop invariant; pooled: one Submit per index and the task calls runExecWithRetries exactly once unless stopped/cancelled); runExecWithRetries has no state besides locals; slot error is the last attempt's error or the fallback's outcome (identity, not merely Is).",
          "As C06 for the pooled path (L3).", "6/C07"),
- "C08": ("Concurrency bound: NewWorkerPool spawns exactly max(workers,1) goroutines of worker(p) (loop invariant spawned == k); worker runs received tasks synchronously, one at a time, never spawns; Submit never runs a task; runBatch takes the pooled path iff concurrency > 0 and passes exactly that number; sequential path runs items in index order.",
+ "C08": ("Concurrency bound: NewWorkerPool spawns exactly max(workers,1) goroutines of worker(p) (loop invariant spawned == k); worker runs received tasks synchronously, one at a time, never spawns; Submit never runs a task; runBatch takes the pooled path iff concurrency > 0 and passes exactly that number; one pool task per item, bound to its index; no item is executed while the batch mutex is held; sequential path runs items in index order.",
          "Safety half proved function-locally; lifted to 'never more than c in flight on every schedule' by lemma L2 (counter system with SMT-checked steps L2submit/L2take/L2finish/L2bound; the correspondence of the steps to the cited clauses and T3-T5 are argued). The liveness half (c blocking executions do run simultaneously, no deadlock) is NOT decided by this technique: it follows from spawned == c plus runtime fairness, stated as an argument.", "6/C08, 8"),
- "C09": ("Stop-on-error: sequential: no runExecWithRetries call after a failing one (monitor guard !stopped), every skipped slot is an error result (this clause found defect D3, now fixed); pooled task: reads the stop flag under the mutex before executing, sets it under the mutex after a failure in stop mode, marks itself with an error when stopped.",
+ "C09": ("Stop-on-error: sequential: no runExecWithRetries call after a failing one (monitor guard !stopped), every skipped slot is an error result (this clause found defect D3, now fixed); pooled task: reads the stop flag under the mutex before executing, sets it under the mutex after a failure in stop mode, marks itself with an error when stopped; the flag starts lowered and only an item that ran and failed raises it; a slot holds exactly the outcome exec returned (an error Result stays an error).",
          "Pooled 'only already picked-up items still run' needs T1 ordering + L3 (argued).", "6/C09, 7/D3"),
- "C10": ("Flow as a node: Flow.Prep returns the very store and invokes nothing; Flow.Exec runs every child with that store and returns the last child's action boxed; Flow.Post unboxes it; errors pass unchanged.",
+ "C10": ("Flow as a node: Flow.Prep returns the very store and invokes nothing; Flow.Exec runs every child with that store and returns the last child's action boxed; Flow.Post unboxes it; errors pass unchanged; NewFlow/Connect store exactly the nodes given (no unwrapping), every flow has its own BaseNode, and a flow whose path has run to its end returns an error only for a failed child.",
          "Equivalence with the flattened state machine is the corollary of these clauses plus Run's contract; it is stated, not separately machine-checked.", "6/C10"),
  "C11": ("Batch cancellation: no runExecWithRetries call while cancelled (sequential monitor guard, pooled task checks ctx first), no Exec attempt while cancelled, cancelled wait returns Is(err, ctx.Err()), every unexecuted slot carries an error (found D3), post called exactly once unless prep/post fails. Retry and index loops have decreases clauses.",
          "Termination of pool.Wait() needs T2 and that every task terminates (callbacks terminate): argued. A3.", "6/C11"),
  "C12": ("Worker pool facts proved per function: Submit does exactly one wg.Add(1) before exactly one blocking send of a wrapper bound to (pool, task); the wrapper calls the task exactly once and wg.Done exactly once, deferred; worker calls each received task exactly once before the next receive and returns only on closed queue or done; Wait calls wg.Wait once; Close closes both channels once.",
          "Exactly-once, barrier and visibility for every schedule follow by lemma L2 (SMT-checked counter steps, L2barrier) from these facts and T2-T5 (correspondence argued). 'All goroutines terminate after Wait+Close' is liveness under fairness: not decided.", "6/C12, 8"),
- "C13": ("Lock discipline proved for every store method: each read of the data field and of the map happens with the RWMutex held (R or W), each map write / field write with the exclusive lock, the lock is released at every return, exactly one critical section per operation (Merge/Clear/GetAll/Keys do their whole work in it).",
+ "C13": ("Lock discipline proved for every store method: each read of the data field and of the map happens with the RWMutex held (R or W), each map write / field write with the exclusive lock, the lock is released at every return, exactly one critical section per operation (Merge/Clear/GetAll/Keys do their whole work in it); the functional whole-view clauses of every operation (C14) are checked under this property too, since the reference is an ordinary map.",
          "Linearizability and race freedom follow from this discipline by the standard two-phase-locking argument (lemma L1) and T1: that step is an assumption, not machine-checked. Typed getters reach the store only through one Get.", "6/C13, 4/L1"),
  "C14": ("Store = map: whole-view postconditions for Get/Set/Has/Delete/Len/Clear/Merge/GetAll/Keys over the abstract (dom, val) view of the map object, with frames; GetAll returns a fresh map equal to the view; Keys returns a fresh backing array that is a bijection onto the key set (length == card, all elements keys, pairwise distinct). Range loops use T6 with a ghost visited set.",
          "T6 (range over map) with its side condition checked; sequences of operations by induction over the per-operation refinement (L5, prose).", "6/C14"),
@@ -40,7 +40,7 @@ props = {
          "-", "6/C18, 7/D2"),
  "C19": ("Configuration: every setting in option form (composed contract: constructor then application) and in builder form has the same postcondition field == value with a whole-struct frame, hence last-wins and form-independence; defaults proved for NewBaseNode/NewNode/NewBatchNode/NewWorkerPool; NewBaseNode/NewNode/NewBatchNode apply the collected options in index order, each exactly once, base options before custom ones.",
          "Unknown options may set any field of the node they receive (A1 for options); option application inside NewNode/NewBatchNode: the collected lists are proved to be the order-preserving sub-sequences of the argument list.", "6/C19"),
- "C20": ("Retry wait with a ghost clock: at every Exec site after the first, now >= end of previous attempt + wait (T7); no timer before the first attempt; the blocking receive on the timer always sits in a select with ctx.Done() whose branch returns Is(err, ctx.Err()) without further blocking operation or callback (an error built from context.Cause does not qualify). time.NewTimer/Reset are modelled like time.After.",
+ "C20": ("Retry wait with a ghost clock: at every Exec site after the first, now >= end of previous attempt + wait (T7); the blocking select happens only when 0 < attempts made < budget (no wait before the first attempt or after the last, in Run and in the batch item loop); the blocking receive on the timer always sits in a select with ctx.Done() whose branch returns Is(err, ctx.Err()) without further blocking operation or callback (an error built from context.Cause does not qualify). time.NewTimer/Reset are modelled like time.After.",
          "T7 stands for real elapsed time (not measured); T5, T8.", "6/C20"),
 }
 checks = []
